@@ -93,7 +93,7 @@ PROPS["C09"] = {
         "C09.C09_stm_sound", "C09.verifyBatch_ok_run", "C09.run_head_zero", "C09.C09_stm_rejects_length_mismatch",
         "C09.C09_stm_rejects_unsorted", "C09.C09_stm_empty_panic_note", "C09.C09_stm_root_injective",
         "C09.C09_mkproof_sound", "C09.C09_mkproof_dup_counterexample_prefix", "C09.C09_mkproof_node_as_leaf_counterexample",
-        "C09.C09_map_sound", "StmBatch.batch_sound", "Mmr.mkproof_value_sound", "Mmr.calcRoot_cover",
+        "C09.C09_map_sound", "C09.C09_map_exec_sound", "MapLink.verify_verified", "MapLink.contains_contains", "StmBatch.batch_sound", "Mmr.mkproof_value_sound", "Mmr.calcRoot_cover",
         "ExprTree.nested_sound", "ExprTree.claim_is_subtree_value", "MkProof.verify_contains_sound",
     ],
     "level_text": "Soundness of all three verifiers is proved in Lean for every proof object and every tree size: the STM batch-path "
@@ -106,7 +106,7 @@ PROPS["C09"] = {
     "level_note": "Trusted: Lean kernel; the hash functions are parameters of the theorems (injectivity / collision disjunct) and are "
                   "only executed in the driver (validated against the blake2/sha2 crates every run); byte-level instantiation of the "
                   "MMR theorem needs equal-length splits (known findings node-as-leaf and concat-split are exactly its failure); the "
-                  "link between the executable MapProof.verify and the inductive Verified predicate is by K only.",
+                  "executable MapProof.verify/contains are proved to establish the inductive Verified/Contains predicates (MapLink), so the nested soundness theorem applies to the very functions K validates.",
     "harness": [("harness", "c09"), ("harness", "c09b")],
     "anchors": ["mithril-stm/src/membership_commitment/merkle_tree/tree.rs", "mithril-stm/src/membership_commitment/merkle_tree/commitment.rs",
                 "mithril-stm/src/membership_commitment/merkle_tree/path.rs", "internal/mithril-merkle-tree/src/merkle_tree.rs",
@@ -121,7 +121,6 @@ PROPS["C09"] = {
                      "ckb-merkle-mountain-range 0.6.1 is transliterated (Mmr.lean) and compared by K, not verified itself"],
     "assumptions": ["collision resistance / injectivity of Blake2b-256 and Blake2s-256 enter as hypotheses or disjuncts of the theorems"],
     "goals_not_proved": ["C09_stm_complete, C09_mkproof_complete (generated proofs verify): exhaustive small-scope test only",
-                         "executable MapProof.verify => Verified (link lemma): K only",
                          "byte-level instantiation of C09_mkproof_sound for variable-length leaves is FALSE (known findings C09-node-as-leaf, C09-concat-split)"],
 }
 
@@ -344,7 +343,7 @@ PROPS["C05"] = {
 
 PROPS["C11"] = {
     "lean_modules": ["MithrilModel.Properties.C11"],
-    "theorems": ["C11.C11_set_sound", "C11.C11_set_sound_v2", "C11.C11_empty_rejected", "C11.C11_roots_must_agree",
+    "theorems": ["C11.C11_set_sound", "C11.C11_set_committed", "C11.C11_set_sound_v2", "C11.C11_empty_rejected", "C11.C11_roots_must_agree",
                  "C11.C11_leaf_injective", "C11.C11_leaf_slash_note", "C11.C11_stake_leaf_counterexample", "C11.C11_stake_partial",
                  "Proofs.verifyLegacy_sound", "Proofs.rootsLoop_sound", "C09.C09_map_sound", "C04.C04_pm_single_value"],
     "level_text": "Acceptance of a legacy or v2 proofs response is proved in Lean to imply: at least one part, every part's nested proof "
